@@ -244,6 +244,21 @@ static void nonmember_all (const std::vector<std::vector<int> >& seqs)
       ok = ok && same_codes (a, eb) && same_codes (b, ea);
       a.swap (b);
       ok = ok && same_codes (a, ea) && same_codes (b, eb);
+      // the non-member swap must leave the same STATE as the member swap (capacity, representation), for every pair of
+      // preparations incl. empty containers that still own a heap buffer
+      for (int prep = 0; prep < 6; ++prep)
+      {
+        V m1 (seqs[i].begin (), seqs[i].end ()), m2 (seqs[j].begin (), seqs[j].end ());
+        V n1 (seqs[i].begin (), seqs[i].end ()), n2 (seqs[j].begin (), seqs[j].end ());
+        if (prep & 1) { m1.reserve (N + 6); n1.reserve (N + 6); }
+        if (prep & 2) { m2.reserve (N + 9); n2.reserve (N + 9); }
+        if (prep >= 4) { m1.clear (); n1.clear (); if (prep == 5) { m2.clear (); n2.clear (); } }   // empty but allocated
+        m1.swap (m2);
+        swap (n1, n2);
+        ++g_nonmember;
+        ok = ok && same_codes (m1, n1) && same_codes (m2, n2) && m1.capacity () == n1.capacity () && m2.capacity () == n2.capacity ()
+                && m1.inlined () == n1.inlined () && m2.inlined () == n2.inlined ();
+      }
       if (! ok)
       {
         G ().caseid = format ("%s/N%u/nonmember/%s/%s", g_tname, N, show (seqs[i]).c_str (), show (seqs[j]).c_str ());
